@@ -479,7 +479,7 @@ func ruleC02i(c *Ctx, rule string) {
 func init() {
 	register(&PropSpec{
 		ID:          "C02",
-		Explanation: "Decides the ordering and pairing obligations of the flush/offset protocol: (a) fsync and close, each checked, before the rename that makes a file visible; (b) new stores installed only after the rename, the new memstore continuing from the flushed offsets; (c) offsets and rows have a single writer and are applied in one critical section; (d) the header offsets written with a file are those of the memstore flushed into it; (e) an offset-only write happens only with an empty memstore; (f) restart resumes from Advance(file header, offset file) recovered from the same file the file store serves. Added clauses: temp files are created outside the table directory; follower-side per-table dedup (= C12.a); one row store insert per WAL entry.",
+		Explanation: "Decides the ordering and pairing obligations of the flush/offset protocol: (a) fsync and close, each checked, before the rename that makes a file visible; (b) new stores installed only after the rename, the new memstore continuing from the flushed offsets; (c) offsets and rows have a single writer and are applied in one critical section; (d) the header offsets written with a file are those of the memstore flushed into it; (e) an offset-only write happens only with an empty memstore; (f) restart resumes from Advance(file header, offset file) recovered from the same file the file store serves. Added clauses: temp files are created outside the table directory; follower-side per-table dedup (= C12.a); one row store insert per WAL entry. Further clauses: the standalone source tag of the WAL read loop is the key CreateTable resumes from; only the database-wide task truncates or compresses a WAL.",
 		NotDecided:  []string{"behaviour at actual crash points and fsync semantics of the OS/filesystem", "the WAL library itself", "multi-round crash histories", "one WAL entry with array values becomes several memstore inserts carrying the same offset (reading note)"},
 		Assumptions: []string{"os.Rename is atomic on one filesystem", "sync.RWMutex semantics"},
 		Rules: []func(*Ctx){func(c *Ctx) { ruleC02a(c, "C02.a") }, func(c *Ctx) { ruleC02b(c, "C02.b") }, func(c *Ctx) { ruleC02c(c, "C02.c") }, func(c *Ctx) {
